@@ -248,6 +248,22 @@ def run(ck):
         as_file = ck.rng.random() < 0.3
         cases.append({'op': 'compile', 'sources': [new], 'as_file': as_file, 'proj': False,
                       '_kind': kind, '_bounds': (span[0], pos if junk else None), '_base': full})
+    # the malformed definition is the last thing in the input and nothing unindented follows it (END indented or missing): the
+    # excerpt then takes its fall-back form; blank lines before the definition must not shift its numbering
+    BAD = ['Gamma BOOLEAN', 'Gamma ::= SEQUENCE { a INTEGER,, }', 'Gamma ::= INTEGER (0..', 'gamma INTEGER ::= ?', 'Gamma ::= ENUMERATED { a(, }',
+           '% Gamma ::= NULL', 'Gamma ::= CHOICE { a [ INTEGER }', 'Gamma ::= SEQUENCE {\n   a INTEGER,\n   b ? }']
+    for _ in range(60 if ck.tier == 'quick' else 1500):
+        nl = '\r\n' if ck.rng.random() < 0.3 else '\n'
+        pre = 'Mt DEFINITIONS AUTOMATIC TAGS ::= BEGIN' + nl + ''.join('Ok%d ::= INTEGER (0..%d)%s' % (j, j + 7, nl) for j in range(ck.rng.randint(0, 4)))
+        pre += nl * ck.rng.randint(0, 4)
+        if ck.rng.random() < 0.3:
+            pre += '-- é a remark with multi-byte text €' + nl + nl
+        bad = ck.rng.choice(BAD).replace('\n', nl)
+        tail = ck.rng.choice(['', nl + '  END', nl + '  END' + nl, nl + ' -- c', ' ', nl + nl + '   '])
+        src = pre + bad + tail
+        lo = len(pre.encode('utf-8'))
+        cases.append({'op': 'compile', 'sources': [src], 'as_file': ck.rng.random() < 0.3, 'proj': False, '_kind': 'last-definition',
+                      '_bounds': (lo, None)})
     # comments / strings left open at the end of an assignment
     for _ in range(40 if ck.tier == 'quick' else 600):
         t, hspan, spans = build_module(ck, ck.rng.randint(2, 6), ck.rng.random() < 0.4, False)
